@@ -521,8 +521,72 @@ pub fn gen_s4(rng: &mut Rng) -> Scenario {
     Scenario { init, order: [vec![], vec![], vec![]], threads, f2: (0..n).map(|_| if rng.chance(0.3) { vec![rng.below(3) as u32] } else { vec![] }).collect(), pre: vec![Step::AddFreeDarts(6 * n_e as u32)] }
 }
 
+/// S3b: two or three kernels, one per thread, all aimed at the same face / edge or at direct
+/// neighbours of it, each valid on the initial state with its own fresh spare darts: the
+/// kernel counterpart of S1b (torn snapshots inside kernels are where `unwrap()`s and
+/// `unreachable!()`s bite).
+pub fn gen_s3b(rng: &mut Rng) -> Scenario {
+    use crate::ops::{Op, Runner, Tx};
+    let tri = rng.chance(0.5);
+    let kinds = if rng.chance(0.7) { 0 } else { rand_kinds_kernels(rng) };
+    let init = kernel_state(rng, kinds, tri, 2);
+    let order = rand_order(rng, init.kinds);
+    let mut pool = free_pool(&init);
+    let (pe, pf) = (init.partition(1), init.partition(2));
+    let linked: Vec<u32> = (1..init.n() as u32).filter(|&d| !init.is_free(d)).collect();
+    let x = *rng.pick(&linked);
+    // darts of the face of x and of the faces across its sides
+    let mut hood: Vec<u32> = init.face_walk(x, true).fwd.clone();
+    for d in hood.clone() {
+        let o = init.b(2, d);
+        if o != 0 {
+            for y in init.face_walk(o, true).fwd {
+                if !hood.contains(&y) {
+                    hood.push(y);
+                }
+            }
+        }
+    }
+    let n_threads = 2 + usize::from(rng.chance(0.3));
+    let mut threads = vec![];
+    for _ in 0..n_threads {
+        let d = *rng.pick(&hood);
+        let mut take = |k: usize, pool: &mut Vec<u32>| -> Option<Vec<u32>> {
+            if pool.len() < k { None } else { Some(pool.drain(..k).collect()) }
+        };
+        rng.shuffle(&mut pool);
+        let face = pf[d as usize];
+        let flen = init.face_walk(face, true).fwd.len();
+        let op = match rng.below(if tri { 6 } else { 9 }) {
+            0 | 1 => take(2, &mut pool).map(|v| Op::InsertVertex { e: pe[d as usize], nd: (v[0], v[1]), t: Some((0.2 + 0.6 * rng.unit()).to_bits()) }),
+            2 => take(4, &mut pool).map(|v| Op::InsertVertices { e: pe[d as usize], nd: v, ts: vec![0.3f64.to_bits(), 0.7f64.to_bits()] }),
+            3 if tri => Some(Op::Swap { e: pe[d as usize] }),
+            4 if tri => {
+                if init.b(2, d) == 0 { take(3, &mut pool).map(|v| Op::CutOuter { e: d, nd: [v[0], v[1], v[2]] }) } else { take(6, &mut pool).map(|v| Op::CutInner { e: pe[d as usize], nd: [v[0], v[1], v[2], v[3], v[4], v[5]] }) }
+            }
+            5 if tri => Some(Op::Collapse { e: pe[d as usize] }),
+            _ if flen >= 4 => take(2 * (flen - 3), &mut pool).map(|nd| match rng.below(4) {
+                0 => Op::Fan { f: face, nd },
+                1 => Op::FanConvex { f: face, nd },
+                2 => Op::EarclipCcw { f: face, nd },
+                _ => Op::EarclipCw { f: face, nd },
+            }),
+            _ => Some(Op::CellId { okind: 2, d }),
+        }
+        .unwrap_or(Op::CellId { okind: 0, d });
+        let runner = match rng.below(4) {
+            0 => Runner::ControlRetry,
+            1 => Runner::RetryLoop(2),
+            _ => Runner::WithErr,
+        };
+        threads.push(vec![Tx { runner, ops: vec![op], f1: vec![], f2: vec![], f1_attempt: 0 }]);
+    }
+    Scenario { init, order, threads, f2: vec![], pre: vec![] }
+}
+
 pub fn gen_family(rng: &mut Rng) -> (&'static str, Scenario) {
-    match rng.below(31) {
+    match rng.below(36) {
+        31..=35 => ("S3b", gen_s3b(rng)),
         29..=30 => ("S4", gen_s4(rng)),
         26..=28 => ("S6", gen_s6(rng)),
         20..=25 => ("S1b", gen_pair_conflict(rng)),
